@@ -822,8 +822,10 @@ class Evolution(pg.DNAGenerator):
                 global_state=self._global_state,
                 step=self._num_feedbacks)
           self._num_feedbacks += 1
-        if is_initial_population(dna):
-          init_population.append((dna, reward))
+      # NOTE: initial proposals that are still in flight are replayed into the
+      # population initializer too, or it would propose them again.
+      if is_initial_population(dna):
+        init_population.append((dna, reward))
 
       # Recover `self.num_generations`.
       generation_id = get_generation_id(dna)
@@ -831,8 +833,9 @@ class Evolution(pg.DNAGenerator):
         self._global_state.num_generations = generation_id
 
     # Recover the state of the population initializer.
+    num_evaluated = len([r for _, r in init_population if r is not None])
     if (self._init_population_size is not None
-        and len(init_population) >= self._init_population_size):
+        and num_evaluated >= self._init_population_size):
       self._population_initialized = True
     self._init_population_generator.recover(init_population)
 
